@@ -79,7 +79,7 @@ def tla_set(xs):
     return "{" + ", ".join('"%s"' % x for x in sorted(xs)) + "}"
 
 
-def trace_cfg(path, runs, cap, sig, badsig, design=None, inv="TraceInv", emit=()):
+def trace_cfg(path, runs, cap, sig, badsig, design=None, inv="TraceInv", emit=(), nostep=()):
     d = dict(DESIGN)
     d.update(design or {})
     with open(path, "w") as f:
@@ -92,6 +92,7 @@ CONSTANTS
   SigRuns = %s
   BadSigRuns = %s
   EmitRuns = %s
+  NoStepRuns = %s
   WithClose = TRUE
   Serial = FALSE
   MergedExit = %s
@@ -103,7 +104,7 @@ CONSTANTS
 INVARIANT %s
 CONSTRAINT HighWater
 POSTCONDITION Accepted
-""" % (tla_set(runs), cap, tla_set(sig), tla_set(badsig), tla_set(emit),
+""" % (tla_set(runs), cap, tla_set(sig), tla_set(badsig), tla_set(emit), tla_set(nostep),
        "TRUE" if d["MergedExit"] else "FALSE", "TRUE" if d["LateClose"] else "FALSE",
        "TRUE" if d["SharedDecoder"] else "FALSE", inv))
 
@@ -138,13 +139,17 @@ def merge_env(evs):
     return out
 
 
-def validate(ctx, sessions, runs, cap, sig, badsig, design=None, label="trace", inv="TraceInv", emit=()):
+def validate(ctx, sessions, runs, cap, sig, badsig, design=None, label="trace", inv="TraceInv", emit=(), nostep=()):
     """sessions: list of (id, [hook events]).  Returns (ok, info).  One TLC start for all sessions
     of one configuration, concatenated with reset lines."""
     lines, owner = [], []
     for sid, evs in sessions:
         lines.append(dict(ev="reset", r="", k="", n=0, b=False, rs=[]))
         owner.append((sid, -1))
+        # a caller refused because its run ID is in flight leaves the client's state as it was: its events are stuttering
+        dupg = set(e.get("g") for e in evs if e["ev"] == "c.register" and (e.get("kv") or {}).get("dup"))
+        if dupg:
+            evs = [e for e in evs if not (e.get("g") in dupg and e["ev"].startswith("c."))]
         for i, e in enumerate(merge_env(evs)):
             fl = flatten(e)
             if fl is not None:
@@ -153,7 +158,7 @@ def validate(ctx, sessions, runs, cap, sig, badsig, design=None, label="trace", 
     tpath = os.path.join(ctx.tmp, "%s-%d.ndjson" % (label, len(ctx.tlc_runs)))
     common.write_ndjson(tpath, lines)
     cfg = tpath + ".cfg"
-    trace_cfg(cfg, runs, cap, sig, badsig, design, inv=inv, emit=emit)
+    trace_cfg(cfg, runs, cap, sig, badsig, design, inv=inv, emit=emit, nostep=nostep)
     r = ctx.tlc("ATPTrace", cfg, workers=1, env={"VERIF_TRACE": tpath}, timeout=1200, dfs=True,
                 allow_violation=True)
     m = re.search(r'<<"HIGHWATER", (\d+), (\d+)>>', r.out)
@@ -215,7 +220,7 @@ def final_field(state_text, var):
 
 # ------------------------------------------------------------------ model-checking configurations
 def mc_cfg(path, consts, invariants=(), properties=(), spec="Spec", constraint=None):
-    d = dict(Runs="R2", Cap=0, Frag="FALSE", StepBeh="BehOk", SigRuns="None", BadSigRuns="None", EmitRuns="None",
+    d = dict(Runs="R2", Cap=0, Frag="FALSE", StepBeh="BehOk", SigRuns="None", BadSigRuns="None", EmitRuns="None", NoStepRuns="None",
              WithClose="FALSE", Serial="FALSE", NoRun="Empty",
              MergedExit="TRUE" if DESIGN["MergedExit"] else "FALSE",
              LateClose="TRUE" if DESIGN["LateClose"] else "FALSE",
@@ -224,7 +229,7 @@ def mc_cfg(path, consts, invariants=(), properties=(), spec="Spec", constraint=N
     if spec.startswith("F"):          # ATPClientEnv extends ATPServerEnv: both bounds are constants there
         d.setdefault("MaxEnv", 0)
         d.setdefault("MaxUnsol", 1)
-    subst = {"Runs", "StepBeh", "SigRuns", "BadSigRuns", "EmitRuns", "NoRun"}
+    subst = {"Runs", "StepBeh", "SigRuns", "BadSigRuns", "EmitRuns", "NoStepRuns", "NoRun"}
     with open(path, "w") as f:
         f.write("SPECIFICATION %s\nCONSTANTS\n" % spec)
         for k, v in d.items():
